@@ -187,7 +187,30 @@ def gen(rng, tier):
             pos += 1
         prog.insert(pos, ['buffer', rng.choice(sizes)])
     mode = rng.choice(['iter', 'iter', 'collect', 'drain', 'take'])
-    sc = {'xs': xs, 'prog': prog, 'consume': mode, 'take': rng.randrange(0, n + 2), 'src_delay': rng.choice([0, 0, 0.001])}
+    if rng.random() < 0.2 and n >= 3:
+        # "incremental consumption" class: a short chain of one-to-one operators with at least one concurrent one, first k taken
+        prog = []
+        for _ in range(rng.choice([1, 2, 3])):
+            op = rng.choice(['map', 'buffer', 'parmap', 'parmap', 'peek', 'accumulate'])
+            if op == 'map':
+                prog.append(['map', rng.choice(['f_inc', 'f_dbl'])])
+            elif op == 'buffer':
+                prog.append(['buffer', rng.choice([1, 2, 3])])
+            elif op == 'parmap':
+                prog.append(['parmap', rng.choice(['f_inc', 'f_dbl']), rng.choice([1, 1, 2, 3]), [rng.choice([0.001, 0.005, 0.02]) for _ in range(3)]])
+            elif op == 'peek':
+                prog.append(['peek', rng.choice([1, 2, 3])])
+            else:
+                prog.append(['accumulate', 'acc_add', rng.choice([None, 0, 5])])
+        if not any(p[0] in ('buffer', 'parmap') for p in prog):
+            prog.append(['parmap', 'f_inc', 1, [0.005, 0.001, 0.02]])
+        xs = [rng.randrange(100) for _ in range(rng.choice([12, 20, 40]))]
+        n = len(xs)
+        mode = 'take'
+    sc = {'xs': xs, 'prog': prog, 'consume': mode, 'take': rng.randrange(0, min(n, 6) + 2) if mode == 'take' and n > 8 else rng.randrange(0, n + 2),
+          'src_delay': rng.choice([0, 0, 0.001])}
+    if n and rng.random() < 0.25:
+        sc['stall'] = [rng.randrange(n + 1), rng.choice([0.1, 0.1, 0.1, 0.5, 1.0, 1.0, 2.0])]  # the source stalls once (virtual time)
     return {'scenario': sc, 'sim': swarm(rng, racy=0.1, line=0.2, max_time=200.0)}
 
 
@@ -203,6 +226,8 @@ def shrink(sc):
                 yield dict(sc, prog=prog[:i] + prog[i + 1:])
     if sc['src_delay']:
         yield dict(sc, src_delay=0)
+    if sc.get('stall'):
+        yield {k: v for k, v in sc.items() if k != 'stall'}
 
 
 def mk(v):
@@ -311,9 +336,10 @@ def norm(v):
 
 
 class Src:
-    def __init__(self, xs, delay):
+    def __init__(self, xs, delay, stall=None):
         self.xs = xs
         self.delay = delay
+        self.stall = stall
         self.i = 0
         self.entered = 0
 
@@ -324,6 +350,8 @@ class Src:
         self.entered += 1
         if self.delay:
             time.sleep(self.delay)
+        if self.stall is not None and self.i == self.stall[0]:
+            time.sleep(self.stall[1])
         if self.i >= len(self.xs):
             raise StopIteration
         self.i += 1
@@ -351,7 +379,7 @@ ONE_TO_ONE = {'map', 'peek', 'accumulate', 'buffer', 'parmap', 'head'}
 def build_stream(sim, sc, xs, peeked):
     from mpservice.streamer import Stream
     prog = sc['prog']
-    src = Src(xs, sc['src_delay'])
+    src = Src(xs, sc['src_delay'], sc.get('stall'))
     s = Stream(src)
     for p in prog:
         op = p[0]
